@@ -483,7 +483,7 @@ def mk_algo(bt, d, tickers, dates, data, perturb=None):
     if n == "RebalanceOverTime":
         r = a.RebalanceOverTime(d[1])
         if len(d) > 2 and d[2]:
-            a.run_always(r)       # called on every run(), also after an earlier algo of the stack answered False
+            r = a.run_always(r)   # (as users write it: the decorator's return value goes into the stack) called on every run(), also after an earlier algo of the stack answered False
         return r
     raise ValueError(n)
 
